@@ -582,9 +582,6 @@ def check_names(case, r):
         if known_overflow(name, illegal, reserved, prefix, suffix):
             r.acc.exclude("names:known-finding reserved part prefixed after 255 clip")
             continue
-        if which == "misc" and ('"' in name or "\x00" in name):
-            r.acc.exclude("names:known-finding misc.filenames keeps '\"' and NUL")
-            continue
         if case["variant"] == "ufo-glif" and i % 2:
             ok, fn = r.call("glyphNameToFileName", glyphNameToFileName, name, existing)
         else:
@@ -668,8 +665,7 @@ def ds_sanitize(d, acc):
     for ax in d["axes"]:
         for k, v in list(ax["labelNames"].items()):
             if v == "":
-                ax["labelNames"][k] = "x"
-                ex("ds:known-finding empty localised axis name crashes the reader")
+                pass  # former finding (repaired): an empty localised name crashed the reader
     for s in d["sources"]:
         if "en" in s["localisedFamilyName"]:
             del s["localisedFamilyName"]["en"]
@@ -687,14 +683,7 @@ def ds_sanitize(d, acc):
             if sub["kind"] == "range":
                 vals = [sub["userMinimum"], sub["userDefault"], sub["userMaximum"]]
                 if any(v is None for v in vals) and not all(v is None for v in vals):
-                    lo, de, hi = sorted(x for x in vals if x is not None)[0], None, None
-                    present = sorted(x for x in vals if x is not None)
-                    sub["userMinimum"] = present[0] if sub["userMinimum"] is None else sub["userMinimum"]
-                    sub["userMaximum"] = present[-1] if sub["userMaximum"] is None else sub["userMaximum"]
-                    sub["userDefault"] = sub["userMinimum"] if sub["userDefault"] is None else sub["userDefault"]
-                    a, b, c = sorted([sub["userMinimum"], sub["userDefault"], sub["userMaximum"]])
-                    sub["userMinimum"], sub["userDefault"], sub["userMaximum"] = a, b, c
-                    ex("ds:known-finding partial range axis-subset cannot be read back")
+                    pass  # former finding (repaired): a partial range axis-subset could not be read back
     if ds_expected_format(d) >= (5, 0):
         for i in d["instances"]:
             if i["glyphs"]:
@@ -710,9 +699,7 @@ def ds_sanitize(d, acc):
             return {k: (v if k == "lib" else negzero(v, k)) for k, v in o.items()}
         if isinstance(o, list):
             return [negzero(v) for v in o]
-        if isinstance(o, float) and o < 0 and o != int(o) and float("%.6f" % o) == 0:
-            n[0] += 1
-            return 0
+        # former finding (repaired): a value in (-5e-7, 0) was written as "-0"; such values are kept now
         return o
 
     d = negzero(d)
@@ -994,8 +981,8 @@ def check_ds(case, r):
     else:
         enc = None
         if via == "str-unicode":
-            # known finding: tostring(encoding=str / "unicode") raises with lxml installed
-            r.acc.exclude("ds:known-finding tostring(encoding='unicode') raises (lxml)")
+            # former finding (repaired): tostring(encoding=str / "unicode") raised with lxml installed
+            enc = str if d.get("seed_bit", 0) % 2 == 0 else "unicode"
         doc = ds_build(d)
         ok, s1 = r.call("tostring", doc.tostring, encoding=enc)
         if not ok:
